@@ -14,7 +14,7 @@ L = spaces.LINES + ['<!-- x -->', '> <!-- c', '> ```', '> <?p', '<x-y>', '# h #'
 LB3 = ['<div>', '', 'foo', '```', '# h', '> q', '- a', '<!-- x -->', '===', '<x-y>', '-', '#']
 # family F2: A = X + blank line + closing paragraph (so that any X qualifies as "ending in a closed block"); X holds
 # look-aheads that are made but not consumed (indented table rows after a paragraph, ...)
-LX = ['foo', '    | a | b |', '    |---|---|', '| a | b |', '|---|---|', '- a', '  b', '> q', '```', '<div>', '    c', '', '-']
+LX = ['foo', '    | a | b |', '    |---|---|', '| a | b |', '|---|---|', '- a', '  b', '> q', '```', '<div>', '    c', '', '-', '===', '- # h', '> - a']
 LT = ['-', '', '- a', 'foo']
 LBX = LB3 + ['  b', '| a | b |', '|---|---|']
 
@@ -29,6 +29,8 @@ def jobs(tier):
     js = [(i, ka, kb, j, sub) for i in range(len(L)) for j in range(sub)]
     step = 82 if tier == 'quick' else 16
     js += [('spec', lo, lo + step, 1 if tier == 'quick' else 2) for lo in range(0, 652, step)]
+    # the Markdown renderer's token set (blank lines and link definitions are tokens of their own there): one-line A x all short B
+    js += [('md', i) for i in range(len(L))]
     if tier == 'quick':
         js += [('f2', 'LX', i, j, 3) for i in range(len(LX)) for j in range(len(LX))]
     else:
@@ -60,13 +62,18 @@ def _dump_val(v, Token):
     return repr(v)
 
 
+TOKEN_SET = ['Html']
+_SEP = {}
+
+
 def ast_of(text):
     """per top-level block: the AstRenderer view and the full attribute dump"""
     from mistletoe import Document
     from mistletoe.html_renderer import HtmlRenderer
+    from mistletoe.markdown_renderer import MarkdownRenderer
     from mistletoe.ast_renderer import get_ast
     core.fresh()
-    with HtmlRenderer():
+    with (MarkdownRenderer if TOKEN_SET[0] == 'Markdown' else HtmlRenderer)():
         doc = Document(text)
         return dict(type='Document', footnotes=get_ast(doc)['footnotes'],
                     children=[dict(type=type(c).__name__, ast=get_ast(c), full=full_dump(c)) for c in doc.children])
@@ -120,7 +127,11 @@ def check_pair(A, B, a=None, b=None):
         ab = ast_of(text)
     except Exception as e:
         return dict(sig=core.exc_sig(e), detail=repr(e))
-    exp = a['children'] + shift(b['children'], len(A) + 1)
+    # the separating blank line is itself a token under the Markdown renderer's token set (and nothing under the others)
+    if TOKEN_SET[0] not in _SEP:
+        _SEP[TOKEN_SET[0]] = ast_of('\n')['children']
+    sep = _SEP[TOKEN_SET[0]]
+    exp = a['children'] + shift(sep, len(A)) + shift(b['children'], len(A) + 1)
     if ab['footnotes']:
         return dict(sig='combined-document-defines-references', observed=ab['footnotes'])
     if ab['children'] != exp:
@@ -160,6 +171,17 @@ def run_job(job):
             for other in oneA:
                 judge(r, other, S)
         r.sample(dict(space='spec corpus as A and as B', examples=[lo + 1, hi]), 1)
+        return r
+    if job[0] == 'md':
+        TOKEN_SET[0] = 'Markdown'
+        try:
+            A = [L[job[1]]]
+            if A[0].strip():
+                for B in texts(2):
+                    judge(r, A, B, token_set='Markdown')
+        finally:
+            TOKEN_SET[0] = 'Html'
+        r.sample(dict(space='Markdown token set', A=A), 1)
         return r
     if job[0] == 'f2':
         _, which, i, j, k = job
@@ -215,7 +237,7 @@ def run_job(job):
     return r
 
 
-def judge(r, A, B):
+def judge(r, A, B, token_set=None):
     res = check_pair(A, B)
     if isinstance(res, tuple):
         r.skip(res[1])
@@ -224,11 +246,15 @@ def judge(r, A, B):
     r.transitions += 1
     r.validated += 1
     if res:
-        r.fail(dict(A=A, B=B), res['sig'], res.get('detail', ''), expected=res.get('expected'), observed=res.get('observed'))
+        case = dict(A=A, B=B)
+        if token_set:
+            case['token_set'] = token_set
+        r.fail(case, res['sig'], res.get('detail', ''), expected=res.get('expected'), observed=res.get('observed'))
     r.outcome('spec-pair')
 
 
 def replay(case):
+    TOKEN_SET[0] = case.get('token_set', 'Html')
     res = check_pair(case['A'], case['B'])
     if res is None or isinstance(res, tuple):
         return None
